@@ -353,6 +353,31 @@ PLANS['C04'] = dict(
 )
 
 
+def waitn_owners(w, home):
+    o = w.get('oracle', '')
+    if o in ('asan', 'tsan', 'ubsan'):
+        s = sanitizer_owners(w, home)
+        return s | ({'C11'} if 'C13' in s else set())
+    if o in ('waitn-result', 'waitn-order', 'leftover-registration', 'mode'):
+        return {'C11'}
+    if o in ('deadlock', 'no-progress'):
+        return {'C11'}
+    if o in ('crash', 'panic'):
+        return {'C11', home}
+    return {home}
+
+
+PLANS['C11'] = dict(
+    rule=RULE_B + RULE_A + 'non-trivial = at least one nsync_wait_n call of the execution slept.',
+    groups=[
+        G('waitn', 'c-asan', 'B', 8, 2500, owners=waitn_owners),
+        G('waitn', 'c-plain', 'B', 4, 3000, owners=waitn_owners),
+        G('waitn', 'c-asan', 'A', 4, 800, thorough=20000, owners=waitn_owners),
+        G('mu_mix', 'c-asan', 'B', 2, 1000, **MU),
+    ],
+)
+
+
 def expand(prop, tier, scale=1.0):
     spec = PLANS[prop]
     out = []
